@@ -495,6 +495,7 @@ fn classify_row(sch: &[Field], e: &Expr, row: &Row, loc: Loc, zone_kept: &dyn Fn
             Expr::Cmp(f, op, l) => leaf_class(sch, *f, *op, l, false, false, top, row, loc, zk),
             Expr::In(f, ls) => {
                 let all_num = ls.iter().all(|l| match l { Lit::Int(_) => true, Lit::Str(s, _) => numeric_looking(s), Lit::Flt(_) => false });
+                if ls.iter().any(|l| matches!(l, Lit::Flt(_))) { return Some("in-list-float-literal"); }
                 ls.iter().find_map(|l| leaf_class(sch, *f, Op::Eq, l, true, all_num, false, row, loc, zk))
             }
             Expr::And(a, b) | Expr::Or(a, b) => walk(sch, a, false, row, loc, zk).or_else(|| walk(sch, b, false, row, loc, zk)),
